@@ -15,8 +15,11 @@ MANIFEST = {
     "text": "Coq theorems about hand-written Gallina models of compat.text_repr (with Python's str/bytes repr and "
             "literal evaluation) and of assertThat/expectThat/_matchHelper/addDetailUniqueName: the literal "
             "evaluator gives back the original text for every str/bytes and every multiline setting (proved for "
-            "repr and for the per-character formulation of the multiline branch); assertions raise iff the matcher "
-            "mismatches, expectThat never raises and forces a failure after the test has finished, every mismatch "
+            "repr and for the per-character formulation of the multiline branch); for every test program (setUp, test "
+            "method, tearDown, cleanups, each a sequence of assertThat/expectThat/assert_that and raise statements): "
+            "assertions raise iff the matcher mismatches, expectThat never raises and forces a failure after the test "
+            "has finished whatever the test raises before or afterwards (skip, expected failure, unexpected success, "
+            "error; known finding F21 when setUp itself raises), every mismatch "
             "detail is attached under a fresh name (pigeonhole termination of the unique-name loop). Tied to /repo "
             "on every run by differential execution inside coqc; str()/describe()/get_details()/MismatchError of "
             "every name in testtools.matchers.__all__ are sampled.",
@@ -35,17 +38,25 @@ RULE = ("three kinds of case: text_repr over an alphabet of quotes, backslash, n
         "combining characters (exhaustive over 5 symbols to a length bound, random to length 40; str and bytes; "
         "multiline None/True/False); every name in testtools.matchers.__all__ instantiated with mismatching values "
         "incl. non-ASCII text, bytes and control characters, with and without annotation, plus random combinator "
-        "expressions as in C06; real TestCases whose body is a sequence of assertThat/expectThat/assert_that with "
-        "colliding detail names; non-trivial = text with a quote or newline / a mismatch / at least 2 statements")
+        "expressions as in C06; real TestCases whose setUp, test method, tearDown and up to three cleanups are sequences "
+        "of assertThat/expectThat/assert_that with colliding detail names and of statements raising a skip, failure, "
+        "expected failure, unexpected success or error (through skipTest/fail/expectFailure or directly): fixed "
+        "corner cases, every body of up to 3 assertion statements, every two-step history (one assertion statement "
+        "in one of five places x one raise of each kind in one of five places), then random programs; "
+        "non-trivial = text with a quote or newline / a mismatch / at least 2 statements")
 TRUSTED = ["unicodedata.category(c)[0] in 'CZ' (except space) as the oracle for 'repr escapes this code point'",
            "ast.literal_eval as the reference evaluator on the implementation side (the statement uses the model's own "
            "evaluator on the implementation's output)"]
 ASSUMPTIONS = ["matchees given to MatchesPredicate are not tuples (its match() formats the matchee with %)",
-               "details carry their payload token in their text so that they can be recognised in the outcome"]
+               "details carry their payload token in their text so that they can be recognised in the outcome",
+               "test programs raise only Exception subclasses (no KeyboardInterrupt/SystemExit: C01) and do not use a "
+               "detail named 'reason' or attach details from outside the assertion statements (C05)"]
 EXPLANATION = ("Theorems in coq/Props/C07.v; correspondence: text_repr output compared character for character with "
                "both models and evaluated by the model's literal evaluator; kinds of str/describe/get_details/"
-               "str(MismatchError) for every exported matcher; outcomes and details of real TestCases using "
-               "assertThat/expectThat/assert_that.")
+               "str(MismatchError) for every exported matcher; per user function which statements raised, the outcome "
+               "(reported after every function had run) and the details of real TestCases using "
+               "assertThat/expectThat/assert_that in setUp, test method, tearDown and cleanups next to statements "
+               "that skip, fail, reach an expected failure / unexpected success or raise an error.")
 CASE_TIMEOUT = 30
 
 ROOT = os.path.dirname(os.path.dirname(os.path.dirname(os.path.dirname(os.path.abspath(__file__)))))
